@@ -90,6 +90,20 @@ impl Property for C14 {
                 }
             }
         }
+        // in a third of the cases the pure outputs are declared 1-6 bits wide: what the device reports need not fit, and a
+        // declared expression is evaluated over what the device reported
+        {
+            let mut wch = Ch::new(&s[2]);
+            let _ = wch.u64();
+            if wch.chance(1, 3) {
+                out.class("outputs-narrower-than-the-device-values");
+                for sg in built.sigs.iter_mut() {
+                    if matches!(sg.kind, Kind::Out) && wch.chance(2, 3) {
+                        sg.bits = *wch.choose(&[1usize, 2, 3, 4, 6]);
+                    }
+                }
+            }
+        }
         let rows = instrument(&mut built, &mut Ch::new(&s[1]), 0, ProbePref::Vars, &[]);
         let text = built_text(&built);
         let mut dch = Ch::new(&s[2]);
